@@ -125,7 +125,7 @@ func cmdEscapeCli(p *lang.Process) error {
 		s = p.Parameters.StringArray()
 	}
 
-	escape.CommandLine(s)
+	escape.CommandLineArgs(s)
 
 	_, err := p.Stdout.Writeln([]byte(strings.Join(s, " ")))
 	return err
